@@ -230,10 +230,12 @@ Lemma releaseMem_evolves amt c :
 Proof.
   intros Hc Ha. unfold releaseMem.
   destruct (0 <? mem (hard c)); [|apply evolves_refl; assumption].
-  destruct (Z.leb_spec amt (mem (used c))); cbn [r1_ctx]; [|apply evolves_refl; assumption].
   pose proof (ok_used _ Hc) as (_ & (U1 & U2) & _).
-  apply set_mem_evolves; [assumption|unfold inr; lia|].
-  intros Hl Hp. pose proof (ok_mem _ Hc Hl Hp). lia.
+  destruct (Z.leb_spec amt (mem (used c))); cbn [r1_ctx].
+  - apply set_mem_evolves; [assumption|unfold inr; lia|].
+    intros Hl Hp. pose proof (ok_mem _ Hc Hl Hp). lia.
+  - apply set_mem_evolves; [assumption|unfold inr, W; lia|].
+    intros Hl Hp. exact Hp.
 Qed.
 
 Lemma setStopLevel_evolves l c :
@@ -780,3 +782,16 @@ Example example_history_result :
   cpu (used (cur m)) = 349 /\ mem (used (cur m)) = 305 /\ cpu (hard (cur m)) = 1000 /\
   st (cur m) = Live /\ length (parents m) = 1%nat /\ due (cur m) = false.
 Proof. vm_compute. repeat split. Qed.
+
+(* ---------- releasing memory never panics and never underflows ---------- *)
+
+Theorem releaseMem_total amt c :
+  0 <= amt -> 0 <= mem (used c) ->
+  exists c', releaseMem amt c = ROk c' /\ 0 <= mem (used c') <= mem (used c).
+Proof.
+  intros Ha Hu. unfold releaseMem. destruct (0 <? mem (hard c)).
+  - destruct (Z.leb_spec amt (mem (used c))); eexists; (split; [reflexivity|]); cbn.
+    + lia.
+    + lia.
+  - eexists; split; [reflexivity|]. lia.
+Qed.
